@@ -25,6 +25,7 @@ use spec::{CentralDirectoryEnd, Zip64CentralDirectoryEndLocator, Zip64CentralDir
 //@include spec/extra_ok.rs
 //@include spec/appnote_end.rs
 //@include spec/appnote_headers.rs
+//@include spec/dos_datetime.rs
 //@include spec/zfd_views.rs
 //@include spec/dir_written.rs
 //@include common/writer_types.rs
